@@ -904,6 +904,21 @@ class NF:
                 conditional = True
                 body = H.strip(body["then"])
                 continue
+            if k == "Match" and len(body.get("arms", [])) == 2 and not any(a.get("guard") for a in body["arms"]):
+                # `match lookup { Some(x) => { v.push(..) } None => return Err(..) }`: the push where the value is there; the other arm
+                # leaves with the error (as `?` would)
+                arms = body["arms"]
+                hit = [a for a in arms if self._mutations(lid, [a["body"]])]
+                other = [a for a in arms if a not in hit]
+                if len(hit) == 1 and len(other) == 1:
+                    rv = _returned_value(other[0]["body"])
+                    if rv is not None and _is_failure_value(rv):
+                        base = self.nf(body["scrut"], cur_env)
+                        cur_env = cur_env.child()
+                        bind_pattern(hit[0]["pat"], base, cur_env)
+                        body = H.strip(hit[0]["body"])
+                        continue
+                return None
             if k == "MethodCall" and body["name"] == "push" and self._mutations(lid, [body]):
                 return self.nf(body["args"][0], cur_env), conditional
             if k == "MethodCall" and body["name"] == "insert" and len(body["args"]) == 2 and self._mutations(lid, [body]) \
@@ -1075,6 +1090,9 @@ class NF:
                 rb = self._rewritten_in_loop(pat, init, rest, env)
                 if rb is not None:
                     return rb
+            fl = self._found_by_loop(pat, init, rest, env)
+            if fl is not None:
+                return fl
             return ("unknown", f"mutated local {pat['name']}")
         items = list(init[1])
         accounted = 0
@@ -1128,6 +1146,57 @@ class NF:
         if accounted != len(muts):
             return ("unknown", f"local {pat['name']} is mutated outside the enclosing block")
         return ("list", tuple(items))
+
+    def _found_by_loop(self, pat, init, rest, env):
+        """`let mut x = None; for c in it { if p(c) { x = Some(c); break; } }`: x is `it.find(p)` — the search written by hand. None when
+        the local is touched in any other way."""
+        lid = pat["id"]
+        is_none = (init[0] == "const" and str(init[1]).rsplit("::", 1)[-1] == "None") or init == ("lit", None) or nf_str(init) == "None"
+        if not is_none:
+            return None
+        loop = None
+        env2 = env.child()
+        for st in rest:
+            k = st.get("k")
+            if k == "Let":
+                if self._mutations(lid, [st]):
+                    return None
+                if loop is None:
+                    self.bind_let(st, env2)
+                continue
+            e = H.strip(st.get("e")) if k in ("Semi", "Expr") else None
+            if e is None or not self._mutations(lid, [e]):
+                continue
+            if e.get("k") != "For" or loop is not None:
+                return None
+            loop = e
+        if loop is None:
+            return None
+        body = H.strip(loop["body"])
+        stmts = (list(body["b"]["stmts"]) + ([{"k": "Expr", "e": body["b"]["tail"]}] if body["b"].get("tail") else [])) if body.get("k") == "Block" else []
+        if len(stmts) != 1 or stmts[0].get("k") not in ("Semi", "Expr"):
+            return None
+        iff = H.strip(stmts[0]["e"])
+        if iff.get("k") != "If" or iff.get("else") is not None or H.strip(iff["cond"]).get("k") == "LetExpr":
+            return None
+        then = H.strip(iff["then"])
+        ts = (list(then["b"]["stmts"]) + ([{"k": "Expr", "e": then["b"]["tail"]}] if then["b"].get("tail") else [])) if then.get("k") == "Block" else []
+        if len(ts) != 2:
+            return None
+        asg, brk = H.strip(ts[0].get("e") or {}), H.strip(ts[1].get("e") or {})
+        if asg.get("k") != "Assign" or brk.get("k") != "Break" or not _is_local(asg["a"], lid):
+            return None
+        it = self.nf(loop["iter"], env2)
+        src, val, conds = iter_view(it)
+        env3 = env2.child()
+        bind_pattern(loop["pat"], val, env3)
+        stored = self.nf(asg["b"], env3)
+        if stored != ("call", "Some", (val,)):
+            return None
+        pred = self.nf(iff["cond"], env3)
+        for c_, b_ in conds:
+            pred = ("binop", "And", c_ if b_ else ("not", c_), pred)
+        return ("call", "iter::find", (src, pred))
 
     def _rewritten_in_loop(self, pat, init, rest, env):
         """A text buffer that keeps its first value as a stem and gets a new tail every round of one loop:
